@@ -2,6 +2,7 @@
 import hashlib
 import json
 import os
+import re
 import sys
 import time
 
@@ -101,7 +102,10 @@ class Check:
         new = []
         kf = []
         for v in self.violations:
-            if (self.pid, v["key"]) in known:
+            # a finding is a (rule, function, site) of the source: the same site seen in another build configuration
+            # (key suffix `[config]`) is the same finding
+            base = re.sub(r"\[[a-z_]+\]$", "", v["key"])
+            if (self.pid, v["key"]) in known or (self.pid, base) in known:
                 kf.append(v)
             else:
                 new.append(v)
